@@ -178,17 +178,31 @@ theorem ExecPost.of_one_err {tr : TRef} {s s' : NSt} {e : Exc} (h : One tr s s')
 section
 variable (sub : NSub) (sc : Script) (cfg : NCfg)
 
+theorem nfinalStage_quiet (hC : NoCmds sc) (scope : Scope) (x : Ctx) (dest : Option SPath) (conf0 : Forest) (s s' : NSt)
+    (h : (nfinalStage sub sc cfg scope x dest conf0 s).state? = some s') : Quiet s s' :=
+  Quiet.of_view (nfinalStage_view sub sc cfg hC scope x dest conf0 s s' h)
+
 theorem nexecute_tail (hC : NoCmds sc) (x : Ctx) (tr : TRef) (t : NTrans) (s : NSt) (r5 : NR Unit)
-    (h5 : ∀ s5, r5.state? = some s5 → One tr s s5) :
+    (h5 : ∀ s5, r5.state? = some s5 → One tr s s5) (F : NSt → NR Unit)
+    (hF : ∀ s5 s5', (F s5).state? = some s5' → Quiet s5 s5') :
     ExecPost tr s (r5.bind fun _ s5 =>
+      (F s5).bind fun _ s5 =>
       (ncallbacks sub sc cfg .after x t.after s5).bind fun _ s6 =>
       (ncallbacks sub sc cfg .afterSC x cfg.afterSC s6).bind fun _ s7 =>
         .ok true s7) := by
   cases r5 with
   | oof => simp only [bind_oof]; trivial
   | err e s5 => simp only [bind_err]; exact ExecPost.of_one_err (h5 s5 rfl)
+  | ok _ s5a =>
+  have o5 := h5 s5a rfl
+  simp only [bind_ok]
+  cases hF5 : F s5a with
+  | oof => simp only [bind_oof]; trivial
+  | err e s5' =>
+    simp only [bind_err]
+    exact ExecPost.of_one_err (o5.quiet (hF s5a s5' (by rw [hF5]; rfl)))
   | ok _ s5 =>
-  have o5 := h5 s5 rfl
+  have o5 := o5.quiet (hF s5a s5 (by rw [hF5]; rfl))
   simp only [bind_ok]
   cases h6 : ncallbacks sub sc cfg .after x t.after s5 with
   | oof => simp only [bind_oof]; trivial
@@ -251,7 +265,7 @@ theorem nexecute_post (hC : NoCmds sc) (scope : Scope) (x : Ctx) (tr : TRef) (t 
   | ok _ s4 =>
   have o4 := o3.quiet (ncallbacks_quiet sub sc cfg hC _ x _ _ s4 (by rw [h4]; rfl))
   simp only [bind_ok]
-  refine nexecute_tail sub sc cfg hC x tr t s _ ?_
+  refine nexecute_tail sub sc cfg hC x tr t s _ ?_ _ (fun s5 s5' h => nfinalStage_quiet sub sc cfg hC scope x _ _ s5 s5' h)
   intro s5 h
   refine o4.quiet ?_
   cases hd : t.dest with
